@@ -48,6 +48,7 @@ pub fn plan() -> Plan {
             e
         })),
         enumerate_symbols: None,
+        relabel: None,
     }
 }
 
